@@ -198,7 +198,10 @@ def match_known(pid, finding, known):
     for k in known:
         if k.get("property") != pid or k.get("status") != "open":
             continue
-        if k.get("class") != finding.get("cls"):
+        if "class_regex" in k:
+            if not re.search(k["class_regex"], finding.get("cls", "")):
+                continue
+        elif k.get("class") != finding.get("cls"):
             continue
         rx = k.get("key_regex")
         if rx is None or re.search(rx, finding.get("key", "")):
